@@ -17,6 +17,8 @@ package traefikoidc
 import (
 	"bytes"
 	"compress/gzip"
+	"crypto/hmac"
+	"crypto/sha256"
 	"encoding/base64"
 	"fmt"
 	"io"
@@ -103,6 +105,99 @@ func vfCPViews(value string) [][]byte {
 type vfCPSecret struct {
 	Name string
 	Val  []byte
+}
+
+// vfCPResign: what a party WITHOUT the session key can do to a cookie value it was given: take it apart (base64url,
+// date|value|mac), optionally change one bit of the value's ciphertext, and put it together again under another cookie
+// name with a MAC computed under a key of its own choosing
+func vfCPResign(value, newName string, weak []byte, flipAt int) (string, bool) {
+	outer, err := base64.URLEncoding.DecodeString(value)
+	if err != nil {
+		return "", false
+	}
+	parts := bytes.SplitN(outer, []byte("|"), 3)
+	if len(parts) != 3 {
+		return "", false
+	}
+	date, val := parts[0], parts[1]
+	if flipAt >= 0 {
+		raw, err := base64.URLEncoding.DecodeString(string(val))
+		if err != nil || flipAt >= len(raw) {
+			return "", false
+		}
+		raw[flipAt] ^= 0x01
+		val = []byte(base64.URLEncoding.EncodeToString(raw))
+	}
+	h := hmac.New(sha256.New, weak)
+	h.Write([]byte(newName + "|" + string(date) + "|" + string(val)))
+	b := append([]byte(string(date)+"|"+string(val)+"|"), h.Sum(nil)...)
+	return base64.URLEncoding.EncodeToString(b), true
+}
+
+type vfCPForged struct {
+	Attack  string `json:"attack"`
+	WeakKey string `json:"mac_key"`
+	Cookie  string `json:"cookie"`
+	Read    string `json:"read"`
+}
+
+// vfCPForgeries: cookies re-signed by a key-less party must never be accepted as session content
+func vfCPForgeries(t *testing.T, r *vfRand) (tried int, accepted []vfCPForged) {
+	mName, aName, rName := vfMiscCookieNames()
+	for ki := 0; ki < 2; ki++ {
+		key := vfCPRandString(r, 32+r.intn(33), vfCPB64)
+		sm, err := vfMiscNewSessionManager(key, true)
+		if err != nil {
+			t.Fatalf("NewSessionManager: %v", err)
+		}
+		email := "mallory-" + vfCPRandString(r, 8, vfCPHex) + "@evil.example"
+		idTok := vfCPRandString(r, 36, vfCPB64) + "." + vfCPRandString(r, 300, vfCPB64) + "." + vfCPRandString(r, 86, vfCPB64)
+		lines, err := vfMiscSaveSession(sm, true, true, email, idTok, "rt-"+vfCPRandString(r, 40, vfCPB64), "c", "n", "v", "/p")
+		if err != nil {
+			t.Fatalf("Save: %v", err)
+		}
+		hdr := http.Header{}
+		for _, l := range lines {
+			hdr.Add("Set-Cookie", l)
+		}
+		jar := map[string]string{}
+		for _, c := range vfParseSetCookies(hdr) {
+			if c.MaxAge >= 0 {
+				jar[c.Name] = c.Value
+			}
+		}
+		if auth, em, acc, _, err := vfMiscLoad(sm, jar); err != nil || !auth || em != email || acc != idTok {
+			t.Fatalf("forgery phase: the genuine cookies do not load (%v %v %q)", err, auth, em)
+		}
+		weakKeys := map[string][]byte{"empty": {}, "32 zero bytes": make([]byte, 32), "64 zero bytes": make([]byte, 64),
+			"zero bytes, as many as the key has": make([]byte, len(key)), "the cookie name": []byte(mName), "32 bytes 0xff": bytes.Repeat([]byte{0xff}, 32),
+			"the word secret": []byte("secret")}
+		for wn, wk := range weakKeys {
+			// (1) the access-token cookie's value presented as the refresh-token cookie
+			if f, ok := vfCPResign(jar[aName], rName, wk, -1); ok {
+				tried++
+				if _, _, _, ref, err := vfMiscLoad(sm, map[string]string{mName: jar[mName], aName: jar[aName], rName: f}); err == nil && ref != "" {
+					accepted = append(accepted, vfCPForged{"value of " + aName + " re-signed under the name " + rName, wn, rName, "refresh token read: " + ref[:vfMinInt(len(ref), 40)]})
+				}
+			}
+			// (2) one bit of the main cookie's ciphertext changed (the stream cipher turns that into one changed character)
+			raw, _ := base64.URLEncoding.DecodeString(jar[mName])
+			n := len(raw) * 3 / 4
+			for at := 16; at < n && at < 400; at += 3 {
+				f, ok := vfCPResign(jar[mName], mName, wk, at)
+				if !ok {
+					break
+				}
+				tried++
+				if auth, em, _, _, err := vfMiscLoad(sm, map[string]string{mName: f}); err == nil && (auth || em != "") {
+					accepted = append(accepted, vfCPForged{fmt.Sprintf("bit flipped at ciphertext byte %d of %s, re-signed", at, mName), wn, mName,
+						fmt.Sprintf("authenticated=%v e-mail=%q (written: %q)", auth, em, email)})
+					break
+				}
+			}
+		}
+	}
+	return tried, accepted
 }
 
 func TestVF_CryptoParams(t *testing.T) {
@@ -258,6 +353,10 @@ func TestVF_CryptoParams(t *testing.T) {
 	if !selfTest {
 		t.Fatalf("key-less decoder self-test did not run")
 	}
+	forgeTried, forged := vfCPForgeries(t, r.fork(909))
+	if forged == nil {
+		forged = []vfCPForged{}
+	}
 	if hits == nil {
 		hits = []hit{}
 	}
@@ -266,6 +365,8 @@ func TestVF_CryptoParams(t *testing.T) {
 		first = fmt.Sprintf("%s visible in cookie %s", hits[0].Secret, hits[0].Cookie)
 	}
 	vfWriteJSON(t, "params.json", map[string]interface{}{
+		"forgeries_tried":    forgeTried,
+		"forgeries_accepted": forged,
 		"cookie_encrypted":   len(hits) == 0,
 		"visible":            hits[:vfMinInt(len(hits), 20)],
 		"visible_total":      len(hits),
